@@ -317,7 +317,7 @@ def main():
                 what = 'hexsim does not terminate on this file (%s): %d of %d runs hit the 6 s limit' % (tag, sum(1 for r in runs if r[0] == 124), len(runs))
             elif len(set((r[0], r[1]) for r in runs)) > 1:
                 what = 'hexsim runs of one file (%s) differ with the host stack/heap contents: statuses %s' % (tag, sorted(set(r[0] for r in runs)))
-            elif any(r[0] < 0 or r[0] >= 128 for r in runs):
+            elif any(r[0] < 0 for r in runs):               # killed by a signal (an exit status >= 128 is a legal program exit value)
                 what = 'hexsim crashes on this file (%s): status %d' % (tag, runs[0][0])
             else:
                 kind = exp[0].split()[1]
